@@ -512,10 +512,8 @@ public:
    */
   void deleteNode(Nref nodeObject)
   {
-    // first deleting the node in the graph
+    // deleting the node in the graph: the graph tells every observer (this one too) to forget it
     getGraph()->deleteNode(getNodeGraphid(nodeObject));
-    // then forgetting
-    dissociateNode(nodeObject);
   }
 
 
